@@ -85,6 +85,12 @@ def gen_history(rng):
             if inp not in inputs:
                 inputs.append(inp)
                 break
+    if rng.random() < 0.15:
+        # three arguments of one type and inputs that are shifts of one another: programs reading
+        # different arguments then see equal values at different positions
+        var_types = [S.INT, S.INT, S.INT]
+        a, b, c = [P.gen_value(rng, S.INT) for _ in range(3)]
+        inputs = [[a, b, c], [c, a, b], [b, c, a]][:rng.randint(2, 3)]
     skip = sorted(rng.sample([0, 1, 2, 3], rng.choice([0, 1, 2, 2, 3, 4, 4])))
     use_cache = 1 if rng.random() < 0.75 else 0
     pool = []
@@ -101,6 +107,13 @@ def gen_history(rng):
         pool.append([0, [1, 0, var_types[0]]])
     n_ops = rng.randint(5, 40)
     ops = []
+    if var_types == [S.INT, S.INT, S.INT] and len(inputs) >= 2:
+        f = rng.choice([0, 1])                      # add / sub of lib/semantics.py
+        head = [0, f, S.PRIMS[f][2]]
+        v = lambda i: [0, [1, i, S.INT]]
+        p01, p12 = [1, head, v(0), v(1)], [1, head, v(1), v(2)]
+        ops += [[0, p01, inputs[0]], [0, p12, inputs[1]], [0, p01, inputs[1]]]
+        pool += [p01, p12]
     while len(ops) < n_ops:
         r = rng.random()
         inp = rng.choice(inputs)
